@@ -7,7 +7,7 @@ from ..ref import P, L, to32, le
 
 REQUIRED = ['seed:corner', 'seed:random', 'msg:len0', 'msg:len128', 'msg:long', 'ctx:0', 'ctx:255', 'ctx:256-refused',
             'ctx:1000-refused', 'keypair:match', 'keypair:mismatch', 'keypair:mismatch-torsion', 'keypair:pkcs8', 'keypair:mismatch-undecodable', 'accept:own', 'reject:flip-key', 'reject:flip-msg',
-            'reject:flip-ctx', 'reject:flip-R', 'reject:flip-S', 'hazmat:passthrough', 'batch:own']
+            'reject:flip-ctx', 'reject:flip-R', 'reject:flip-S', 'hazmat:passthrough', 'batch:own', 'traits:pure', 'traits:prehash']
 
 MSG_LENS = [0, 1, 63, 64, 65, 111, 112, 127, 128, 129]
 
@@ -53,7 +53,16 @@ def gen(ctx, size, long_msgs=False):
         ctx.add('sig.keygen', seed.hex(),
                 expect=[Ab.hex(), (seed + Ab).hex(), h[:32].hex(), to32(a % L).hex(), mont, seed.hex(), Ab.hex(), Ab.hex(),
                         'T' if small else 'F'], cls=sc)
-        ctx.add('sig.esk', h.hex(), expect=['ok', Ab.hex(), to32(a % L).hex(), h[32:].hex()], cls=sc)
+        ctx.add('sig.esk', h.hex(), expect=['ok', Ab.hex(), to32(a % L).hex(), h[32:].hex(), to32(a % L).hex() + h[32:].hex()], cls=sc)
+        # context-free trait entry points of the `signature` crate and the From<SecretKey> conversions
+        tm = vals.rb(rng, rng.choice([0, 1, 64, 200]))
+        phsig = ref.ed_sign(seed, None, ph=vals.sha512(tm), ctx=b'')
+        puresig = ref.ed_sign(seed, tm)
+        for given, gcl in ((puresig, 'traits:pure'), (phsig, 'traits:prehash')):
+            okp = ref.ed_verify_predicate(Ab, tm, given)
+            okd = ref.ed_verify_predicate(Ab, None, given, ph=vals.sha512(tm), ctx=b'')
+            ctx.add('sig.traits', seed.hex(), hx(tm), given.hex(),
+                    expect=[phsig.hex(), 'ok', okerr(okp), okerr(okp), okerr(okd), Ab.hex(), Ab.hex()], cls=[sc, gcl])
         ctx.add('sig.sk_tryfrom', seed.hex(), expect=['ok', Ab.hex()], cls=sc)
         ctx.add('misc.sk_generate', seed.hex(), expect=[seed.hex(), Ab.hex()], cls=sc)
         other_seed = vals.rb(rng, 32)
